@@ -245,6 +245,8 @@ class SideAnalysis:
                 return s
             # info object produced by a provider call
             return self.value_side(f, e.value, depth + 1) if isinstance(e.value, (ast.Name, ast.Call)) and self._is_info(f, e.value) else None
+        if isinstance(e, ast.Subscript) and isinstance(e.value, ast.Attribute) and e.value.attr in ("roots", "_root_paths", "_root_oids"):
+            return self.side_expr(f, e.slice, depth + 1)      # the root of side S is a path / id of side S
         if isinstance(e, ast.Call) and isinstance(e.func, ast.Attribute):
             if e.func.attr == "translate" and len(e.args) == 2 and not self._is_provider(f, e.func.value):
                 return self.side_expr(f, e.args[0], depth + 1)
